@@ -5,6 +5,7 @@ package world
 
 import (
 	"bufio"
+	"bytes"
 	"crypto/sha256"
 	"encoding/hex"
 	"encoding/json"
@@ -131,6 +132,9 @@ func Snap(root string) (Snapshot, error) {
 			if err != nil {
 				return err
 			}
+			// the absolute location of the world is not part of its content: hashes must not
+			// depend on the scratch directory of the process that materialised it
+			b = bytes.ReplaceAll(b, []byte(root), []byte(RootPlaceholder))
 			h := sha256.Sum256(b)
 			e.Hash = hex.EncodeToString(h[:])
 		default:
